@@ -102,6 +102,10 @@ static void campaign() {
         hg::Exchange x = hg::gen_exchange(o);
         int pers = rcx::range(0, 9);
         std::string rq = x.req_wire(), rs = x.res_wire();
+        // empty lines before the first request line / status line (ignored by the parser; a cut inside such a line parks it in the line buffer)
+        static const char *LEAD[] = {"\r\n", "\r\n\r\n", "\n", "\r\n\n"}; size_t qlead = 0, slead = 0;
+        if (rcx::chance(1, 5)) { std::string l = LEAD[rcx::range(0, 3)]; qlead = l.size(); rq = l + rq; }
+        if (rcx::chance(1, 8)) { std::string l = LEAD[rcx::range(0, 3)]; slead = l.size(); rs = l + rs; }
         bool counting = !rcx::shrinking();
         vc::set_current_case(case_text(pers, rq, rs, {}, {}));
         vdrv::Result refr = run_chunks(pers, {rq}, {rs}); Canon ref = canon(refr);
@@ -109,6 +113,8 @@ static void campaign() {
         // the reference run itself must be sane: as many transactions as requests
         if (ref.tx.size() != x.req.size()) { std::string sig = "C03:reference_run_transaction_count" + site(refr, refr); if (A.is_known(sig)) { if (counting) g_stats.attributed[sig]++; return {}; } return rcx::Fail{sig, case_text(pers, rq, rs, {}, {}), "whole-stream run reports " + std::to_string(ref.tx.size()) + " transactions for " + std::to_string(x.req.size()) + " requests"}; }
         auto qs = hg::Exchange::spans(x.req), ss = hg::Exchange::spans(x.res);
+        for (auto &sp : qs) { sp.start += qlead; sp.head_end += qlead; sp.end += qlead; } for (auto &sp : ss) { sp.start += slead; sp.head_end += slead; sp.end += slead; }
+        if (counting && (qlead || slead)) g_stats.cls("empty_lines_before_first_message");
         auto one = [&](const std::vector<size_t> &qc, const std::vector<size_t> &sc) -> std::optional<rcx::Fail> {
             auto d = check_one(pers, rq, rs, qc, sc, &ref, &refr);
             if (counting) { g_stats.evaluations++; g_stats.cls("chunkings"); }
